@@ -1239,6 +1239,15 @@ def judge_cmp_mixed(pred_math):
     return j
 
 
+def _int_exponent(e):
+    """x * 2^e for a 64-bit e is x * 2^clamp(e, INT_MIN, INT_MAX): beyond +-2^31 every finite non-zero x has
+    already overflowed / underflowed, so the C function (which takes an int) is applied to the saturated value"""
+    if e[1] == 32:
+        return e
+    lo, hi = T.const(64, 0xffffffff80000000), T.const(64, 0x7fffffff)
+    return T.slice_(T.op("call:llvm.smin", 64, T.op("call:llvm.smax", 64, e, lo), hi), 0, 32)
+
+
 def fam_scalar(vt, cfg):
     if vt.n != 1:
         return []
@@ -1288,6 +1297,14 @@ def fam_scalar(vt, cfg):
             out.append(j)
         for fn, sp in (("frac", "spec:c_frac"), ("logb", "spec:c_logb")):
             j = Inst("s" + fn, [("S", "a")], "S", "avel::%s(a)" % fn, lambda c, sp=sp: T.op(sp, eb, c.args["a"]), judge=judge_numeq)
+            j.optional = True
+            j.vector_family = "cmathx"
+            out.append(j)
+        for fn in ("ldexp", "scalbn"):
+            # scalar ldexp / scalbn take the exponent as an integer of the float's width (the lanes of the vector
+            # overloads take it from an integer vector of that width)
+            j = Inst("s" + fn, [("S", "a"), ("I32" if eb == 32 else "I64", "e")], "S", "avel::%s(a, e)" % fn,
+                     lambda c: T.op("spec:c_ldexp", eb, c.args["a"], _int_exponent(c.args["e"])), judge=judge_ldexp)
             j.optional = True
             j.vector_family = "cmathx"
             out.append(j)
